@@ -92,3 +92,97 @@ theorem errorNonNil_eq_errored (b : Built) (h : Built.Constructed b) : b.errorNo
       cases Built.erroredL kids <;> simp
 
 end GoSecs.Construct
+
+namespace GoSecs.Construct
+open GoSecs GoSecs.Secs2
+
+mutual
+/-- Every error-free leaf of a built tree is a well-formed non-list item (what the leaf constructors
+    return without error: `newInt_wf` and its analogues, ASCII/JIS-8/binary/localized within the cap). -/
+def Built.leavesOK : Built → Prop
+  | .leaf (some it) => WF it ∧ depth it = 0
+  | .leaf none => True
+  | .list _ _ kids => Built.leavesOKL kids
+  | .empty => True
+def Built.leavesOKL : List Built → Prop
+  | [] => True
+  | k :: ks => k.leavesOK ∧ Built.leavesOKL ks
+end
+
+theorem values_filter_wf (kids : List Built)
+    (h : ∀ k ∈ kids, k ≠ .empty → WF k.value) :
+    WFL (Built.values (kids.filter keepChild)) := by
+  induction kids with
+  | nil => simp [List.filter, Built.values, WFL]
+  | cons k ks ih =>
+    have ih' := ih (fun x hx => h x (by simp [hx]))
+    cases k with
+    | empty => simpa [List.filter, keepChild] using ih'
+    | leaf it =>
+      have := h (.leaf it) (by simp) (by simp)
+      simp [List.filter, keepChild, Built.values, WFL, this, ih']
+    | list a b c =>
+      have := h (.list a b c) (by simp) (by simp)
+      simp [List.filter, keepChild, Built.values, WFL, this, ih']
+
+theorem values_filter_length (kids : List Built) : (Built.values (kids.filter keepChild)).length ≤ kids.length := by
+  induction kids with
+  | nil => simp [Built.values]
+  | cons k ks ih => cases k <;> simp [List.filter, keepChild, Built.values] <;> omega
+
+theorem erroredL_mem (kids : List Built) (h : Built.erroredL kids = false) : ∀ k ∈ kids, k.errored = false := by
+  induction kids with
+  | nil => simp
+  | cons k ks ih =>
+    simp only [Built.erroredL, Bool.or_eq_false_iff] at h
+    intro x hx
+    rcases List.mem_cons.1 hx with rfl | hx
+    · exact h.1
+    · exact ih h.2 x hx
+
+theorem leavesOKL_mem (kids : List Built) (h : Built.leavesOKL kids) : ∀ k ∈ kids, k.leavesOK := by
+  induction kids with
+  | nil => simp
+  | cons k ks ih =>
+    intro x hx
+    rcases List.mem_cons.1 hx with rfl | hx
+    · exact h.1
+    · exact ih h.2 x hx
+
+theorem leavesOKL_of_filter (kids : List Built) (h : Built.leavesOKL (kids.filter keepChild)) :
+    Built.leavesOKL kids := by
+  induction kids with
+  | nil => trivial
+  | cons k ks ih =>
+    cases k with
+    | empty => simp only [List.filter, keepChild] at h; exact ⟨trivial, ih h⟩
+    | leaf it => simp only [List.filter, keepChild, Built.leavesOKL] at h; exact ⟨h.1, ih h.2⟩
+    | list a c d => simp only [List.filter, keepChild, Built.leavesOKL] at h; exact ⟨h.1, ih h.2⟩
+
+/-- **Everything the constructors return without error is well-formed** (so C01's round trip applies to
+    it): for every tree built by NewListItem over error-free leaves, if no node carries an error the
+    logical value satisfies `WF` — sizes within the cap at every level and no empty placeholder left
+    below a list. -/
+theorem constructed_wf (b : Built) (hc : Built.Constructed b) (he : b.errored = false)
+    (hl : b.leavesOK) (hne : b ≠ .empty) : WF b.value := by
+  induction hc with
+  | leaf it =>
+    cases it with
+    | none => simp [Built.errored] at he
+    | some v => exact hl.1
+  | empty => exact absurd rfl hne
+  | list kids hk ih =>
+    by_cases hlen : kids.length > maxByteSize
+    · simp [newList, hlen, Built.errored] at he
+    · simp only [newList, hlen, if_false] at he hl ⊢
+      simp only [Built.errored, Bool.false_or, erroredL_filter] at he
+      simp only [Built.leavesOK] at hl
+      have hl' := leavesOKL_of_filter kids hl
+      have hmem := erroredL_mem kids he
+      have hlm := leavesOKL_mem kids hl'
+      simp only [Built.value]
+      refine ⟨?_, values_filter_wf kids (fun k hk' hne' => ih k hk' (hmem k hk') (hlm k hk') hne')⟩
+      have := values_filter_length kids
+      omega
+
+end GoSecs.Construct
